@@ -515,9 +515,149 @@ def r04_j(prog: Program, chk: Check) -> None:
         chk.ob("R04.j", f"value::assignability-model::{k}", not bad, site, f"{counts[k]} cases, {len(bad)} failing" + (f"; first: {bad[0]}" if bad else ""), witness=bad[:4])
 
 
+# ------------------------------------------------------------------- R04.k
+def _type_pair_chunk(args):
+    part, nparts, stride = args
+    from ..model import AnchorError as _AE
+    from ..model import Program as _P
+    from . import container_model as cmod
+
+    m = cmod.ContainerModel(_P())
+    classes = {}
+    unsupported = []
+    n = lenient = 0
+
+    def note(key, bad, d):
+        c = classes.setdefault(key, {"n": 0, "bad": []})
+        c["n"] += 1
+        if bad:
+            c["bad"].append(d)
+
+    for family, specs, objects in (("containers", list(cmod.type_specs()), cmod.OBJECTS), ("TypedDicts", list(cmod.typeddict_specs()), cmod.TD_OBJECTS)):
+      mem = [frozenset(j for j, o in enumerate(objects) if cmod.member(o, s)) for s in specs]
+      for i, a in enumerate(specs):
+          if i % nparts != part:
+              continue
+          A = m.value_of(a)
+          for j, b in enumerate(specs):
+              if stride > 1 and (i + j) % stride and i != j:
+                  continue
+              n += 1
+              d = {"expected": cmod.spec_str(a), "actual": cmod.spec_str(b)}
+              try:
+                  r = m.can_assign(A, m.value_of(b))
+              except _AE as e:
+                  unsupported.append({**d, "why": str(e)[:300]})
+                  continue
+              if isinstance(r, tuple):
+                  note(f"{family}::no-crash", True, {**d, "error": r[1]})
+                  continue
+              note(f"{family}::no-crash", False, d)
+              if i == j:
+                  note(f"{family}::every type accepts itself", not r, d)
+              if r:
+                  extra = mem[j] - mem[i]
+                  # the leniency the property excludes: a fixed-length tuple accepts tuple[E, ...] when E is
+                  # acceptable to the union of its members (pyanalyze/test_value.py::test_sequence_value asserts it)
+                  if extra and a[0] == "tuple" and b[0] == "tuple*":
+                      lenient += 1
+                      continue
+                  note(f"{family}::acceptance implies inclusion of the members", bool(extra), {**d, "objects_only_in_actual": [repr(objects[k]) for k in sorted(extra)][:3]})
+    return n, lenient, classes, unsupported
+
+
+def r04_k(prog: Program, chk: Check) -> None:
+    import multiprocessing as mp
+    import os as _os
+
+    chk.rule(
+        "R04.k",
+        "type-to-type assignability of container types as a finite model (the container model of R03.f): for every pair of the 111 types (list / set / frozenset / Sequence / "
+        "Iterable / tuple[X, ...] / fixed tuples / dict / Mapping over 7 element types, nested containers, unions) and of 180 TypedDicts (21 dict objects), whenever the expected type accepts the actual one, every object "
+        "of the universe that belongs to the actual type belongs to the expected one; every type accepts itself; no pair raises. The one documented leniency (a "
+        "fixed-length tuple accepts tuple[E, ...]) is counted, not reported",
+        floor=3,
+    )
+    selftest = bool(_os.environ.get("VERIF_SELFTEST"))
+    procs = 2 if selftest else min(16, _os.cpu_count() or 1)
+    stride = 4 if selftest else 1
+    with mp.get_context("fork").Pool(procs) as pl:
+        results = pl.map(_type_pair_chunk, [(i, procs * 2, stride) for i in range(procs * 2)])
+    total = lenient = 0
+    merged = {}
+    unsupported = []
+    for n, ln, classes, uns in results:
+        total += n
+        lenient += ln
+        unsupported += uns
+        for k, c in classes.items():
+            mm = merged.setdefault(k, {"n": 0, "bad": []})
+            mm["n"] += c["n"]
+            mm["bad"] += c["bad"]
+    chk.model_evaluations += total
+    chk.analysed["container_model_pairs"] = {"pairs": total, "fixed_tuple_accepts_variadic_tuple (documented leniency)": lenient, "not_modelled": len(unsupported)}
+    site = prog.site("value", prog.find_method("SequenceValue", "can_assign")[1])  # type: ignore[index]
+    for k, c in sorted(merged.items()):
+        bad = sorted(c["bad"], key=lambda d: (len(d["expected"]) + len(d["actual"]), repr(d)))
+        chk.ob("R04.k", f"value::container-model::{k}", not bad, site, f"{c['n']} pairs, {len(bad)} failing" + (f"; smallest: {bad[0]}" if bad else ""), witness=bad[:5])
+    if unsupported:
+        raise AnchorError(f"{len(unsupported)} type pairs cannot be modelled; first: {unsupported[0]}")
+
+
+# ------------------------------------------------------------------- R04.l
+def r04_l(prog: Program, chk: Check) -> None:
+    chk.rule(
+        "R04.l",
+        "accept-by-identity shortcuts: where can_assign / can_be_assigned / can_overlap of a value class accepts because a field that is excluded from equality (`compare=False`) "
+        "is the same object on both sides, the same test (directly or through a helper of the class) also compares every field of the class that holds values; otherwise two values "
+        "that share the object and differ in those fields are interchangeable (two specialisations of one generic alias)",
+        floor=1,
+    )
+    n = 0
+    for cname, ci in sorted(prog.classes.items()):
+        fields = [(st.target.id, ast.unparse(st.annotation), st.value) for st in ci.node.body if isinstance(st, ast.AnnAssign) and isinstance(st.target, ast.Name)]
+        excluded = [f for f, _, v in fields if isinstance(v, ast.Call) and norm(v.func).endswith("field") and any(k.arg == "compare" and isinstance(k.value, ast.Constant) and k.value.value is False for k in v.keywords)]
+        value_fields = [f for f, ann, _ in fields if "Value" in ann and f not in excluded]
+        if not excluded or not value_fields:
+            continue
+        for mname in ("can_assign", "can_be_assigned", "can_overlap"):
+            fn = ci.methods.get(mname)
+            if fn is None or len(fn.args.args) < 2:
+                continue
+            other = fn.args.args[1].arg
+            for node in walk_no_nested(fn):
+                if not isinstance(node, ast.If):
+                    continue
+                accepts = any(isinstance(b, ast.Return) and ((isinstance(b.value, ast.Dict) and not b.value.keys) or (isinstance(b.value, ast.Constant) and b.value.value is None)) for b in node.body)
+                if not accepts:
+                    continue
+                text = norm(node.test)
+                # expand helpers of the class called on (self, other)
+                for c in ast.walk(node.test):
+                    if isinstance(c, ast.Call) and isinstance(c.func, ast.Attribute) and norm(c.func.value) == "self" and c.func.attr in ci.methods and [norm(a) for a in c.args] == [other]:
+                        h = ci.methods[c.func.attr]
+                        hp = h.args.args[1].arg if len(h.args.args) > 1 else other
+                        text += " " + " ".join(norm(r.value).replace(f"{hp}.", f"{other}.") for r in ast.walk(h) if isinstance(r, ast.Return) and r.value is not None)
+                for f in excluded:
+                    if f"self.{f} is {other}.{f}" not in text and f"{other}.{f} is self.{f}" not in text:
+                        continue
+                    n += 1
+                    missing = [g for g in value_fields if not (f"self.{g}" in text and f"{other}.{g}" in text)]
+                    chk.ob(
+                        "R04.l",
+                        f"{ci.module}::{cname}.{mname}::identity-shortcut::{f}",
+                        not missing,
+                        prog.site(ci.module, node),
+                        f"accepts when `self.{f} is {other}.{f}` without comparing {missing}: values that share the {f} object and differ there are treated as the same type",
+                    )
+    chk.analysed["identity_shortcuts"] = n
+
+
 def run(prog: Program, chk: Check) -> None:
     guard(chk, r04_ghi, prog, chk)
     guard(chk, r04_abc, prog, chk)
     guard(chk, r04_d, prog, chk)
     guard(chk, r04_ef, prog, chk)
     guard(chk, r04_j, prog, chk)
+    guard(chk, r04_k, prog, chk)
+    guard(chk, r04_l, prog, chk)
